@@ -25,3 +25,4 @@ open Neutrino.BM
 #print axioms C19_buffered_subscriber_counterexample
 #print axioms rollBack_trace_strict
 #print axioms conn_replay_strict
+#print axioms C19_disconnected_after_removal
